@@ -18,6 +18,7 @@ import ASV.Proofs.ProtoRingSup
 import ASV.Proofs.ProtoExtendRing
 import ASV.Proofs.ProtoRingWide
 import ASV.Proofs.ProtoRingMerge
+import ASV.Proofs.ProtoExtendTotal
 namespace ASV.C03
 open ASV ASV.Rules ASV.Proto ASV.Chains ASV.ChainSweep
 
@@ -621,6 +622,19 @@ theorem extenders_ring_partial (within : Lookup) (r : Rec) (hcirc : r.circular =
       RingArea r.len pc'.core ∧ Covers pc'.core pc.core ∧ ∀ g ∈ back ++ forw, Covers pc'.core g.loc :=
   extendCluster_ring within r hcirc hL rules hgenes pc pc' d harea hsub rule hrule hext h
 
+/-- **EXTENDERS on a ring: the call returns** (`_partial`: all genes of the circular record lie in a wide arc
+    for the rule's cutoff, the core is a single span of that arc, and the lookup finds at least one gene
+    inside the core) — `apply_extenders` then returns for the protocluster: no `ValueError`, no failed
+    assertion, no `IndexError`; together with `extenders_ring_partial` this gives what it returns.  Still open:
+    totality when genes or the core lie across the origin (two-part cores). -/
+theorem extenders_ring_total_wide_partial (within : Lookup) (r : Rec) (hcirc : r.circular = true) (rules : List RuleM)
+    (pc : PC) (rule : RuleM) (hrule : findRule rules pc.rule = .ok rule) (hn : 0 ≤ rule.nbhd) (A B : Int)
+    (harc : WideArc r.len rule.cutoff A B) (hgenes : ∀ g ∈ r.genes, GeneIn r.len A B g.loc)
+    (p : Part) (hcore : pc.core = .simple p) (h0 : A ≤ p.lo) (h1 : p.lo < p.hi) (h2 : p.hi ≤ B)
+    (hne : within pc.core false ≠ []) :
+    ∃ pc' d, extendCluster within r rules pc = .ok (pc', d) :=
+  extendCluster_total_wide within r hcirc rules pc rule hrule hn A B harc hgenes p hcore h0 h1 h2 hne
+
 /-- **Superiors: exact characterisation of the implementation.**  Whenever the redundancy test of a
     protocluster `pc` returns, it returns `true` exactly when, for one of the superiors of `pc`'s rule,
     some protocluster `o` of that superior either has a core containing `pc`'s core, or its first/last
@@ -761,6 +775,13 @@ example : WideArc wideRec.len 20 0 40 := ⟨by decide, by decide, by decide, by 
 example : (match findCores wideRec 20 (wideRec.genes.map (·.loc)) with
     | .ok cores => cores.map (fun c => (c.start, c.end)) == [(0, 35)]
     | .error _ => false) = true := by decide +kernel
+/-- the hypotheses of `extenders_ring_total_wide_partial` on that ring: both genes lie in the wide arc -/
+example : ∀ g ∈ wideRec.genes, GeneIn wideRec.len 0 40 g.loc := by
+  intro g hg
+  simp only [wideRec, List.mem_cons, List.mem_nil_iff, or_false] at hg
+  rcases hg with rfl | rfl <;>
+    exact ⟨⟨by simp [Loc.parts], by simp [bridgesOrigin], by intro p hp; simp [Loc.parts] at hp; subst hp; simp [wideRec]⟩,
+      by simp [Loc.start], by simp [Loc.end]⟩
 /-- on that ring with cutoff 15 (two chains) `merge_over_origin` returns the two protoclusters unchanged -/
 example : (match clustersOfRule wideRec ⟨"r", 15, 3, .group false [.single false "a"], [], none⟩ [0, 1] with
     | .ok pcs => (match Proto.mergeOverOrigin wideRec [⟨"r", 15, 3, .group false [.single false "a"], [], none⟩] pcs with
